@@ -5,6 +5,7 @@ import io
 
 from engine import tlc
 from engine.harness import Check
+from engine.watch import Hang, cpu_deadline
 from engine.sgrlex import lex
 
 FRAGS = ["a", "b", "xy", " ", "\n", "\n", "\x1b[31m", "\x1b[1;32m", "\x1b[0m", "\x1b[m", "\x1b[38;5;200m", "\x1b[38;2;1;2;3m",
@@ -40,12 +41,26 @@ def execute(ops):
                     carry = ""
                 carries[pid] = carry
                 e["chunk"] = lex(text)
-                proxy.write(op["text"])
+                with cpu_deadline(10.0):
+                    proxy.write(op["text"])
             else:
-                proxy.flush()
+                with cpu_deadline(10.0):
+                    proxy.flush()
+        except Hang:
+            # the call does not come back (10 s of CPU for a few dozen characters): judged as such, the history stops here
+            e["exc"] = "no-termination"
+            e["out"] = []
+            events.append(e)
+            break
         except Exception as ex:
             e["exc"] = type(ex).__name__
         v = sink.getvalue()
+        if len(v) - pos > 20000:
+            # far more output than anything written to the proxy: judged as such, and the history stops here
+            e["out"] = lex(v[pos:pos + 2000])
+            e["exc"] = "runaway-output"
+            events.append(e)
+            break
         e["out"] = lex(v[pos:])
         pos = len(v)
         events.append(e)
@@ -140,7 +155,14 @@ def fileproxy_part(chk: Check):
                     bufs[pid] = ""
         cleaned.append(out)
     cases = cleaned
-    recs = [execute(ops) for ops in cases]
+    recs = []
+    for ops in cases:
+        recs.append(execute(ops))
+        if sum(1 for r in recs if r["events"] and r["events"][-1]["exc"] == "no-termination") >= 4:
+            # every further history would cost another 10 s of CPU: the ones executed so far are judged
+            chk.notes["stopped_after_nonterminating_calls"] = len(recs)
+            break
+    cases = cases[:len(recs)]
     verdicts, st = tlc.judge("Trace_FileProxy", recs)
     chk.add_tlc(st, "M3-fileproxy")
     chk.traces += len(recs)
